@@ -23,6 +23,8 @@ def stepOps (pre post : Core) (op : String) (j : Json) (msgs : List Json) : Opti
   let sj (k : String) := (jStr (fldD j k (.str ""))).toOption.getD ""
   let msgT (m : Json) (k : String) := (jStr (fldD m k (.str ""))).toOption.getD ""
   let fired := (jBool (fldD j "out" (.bool false))).toOption.getD false
+  -- a scheduling cycle interrupted by an RM request between decision and confirmation is outside the stepped model
+  if (j.getObjVal? "interrupt").toOption.isSome then none else
   match op with
   | "node" =>
     (match sj "action" with
